@@ -340,3 +340,45 @@ def run_both_many(cases):
         m = canon_model(ans)
         out.append((impl, m, diff(impl, m), ex))
     return out
+
+
+def report_request(ex):
+    """model request for the head of DocTest.repr_failure (up to the TRACEBACK heading) of a failed example, and the
+    implementation's lines (uncoloured); None when the example did not fail"""
+    from xdoctest import checker, exceptions
+    import contextlib, io
+    if ex.exc_info is None:
+        return None
+    ev = ex.exc_info[1]
+    if isinstance(ev, checker.ExtractGotReprException):
+        kind = 'extractrepr'
+    elif isinstance(ev, checker.GotWantException):
+        kind = 'gotwant'
+    elif isinstance(ev, exceptions.ExistingEventLoopError):
+        kind = 'loop'
+    else:
+        kind = 'exception'
+    if ex.failed_part == '<IMPORT>':
+        failed = [Sym('import'), Sym('import')]
+    else:
+        idx = [i for i, p in enumerate(ex._parts) if p is ex.failed_part]
+        if not idx:
+            return None
+        failed = [idx[0], Sym(kind)]
+    skipped = [i for i, p in enumerate(ex._parts) if any(p is q for q in ex._skipped_parts)]
+    logged = [[int(k), v] for k, v in ex.logged_stdout.items()]
+    tb = getattr(ex, 'failed_tb_lineno', None) or 0
+    old = ex.config['colored']
+    ex.config['colored'] = False
+    try:
+        with contextlib.redirect_stdout(io.StringIO()):
+            lines = ex.repr_failure()
+    finally:
+        ex.config['colored'] = old
+    prefix = ex._block_prefix
+    stop = prefix + ' TRACEBACK'
+    head = lines[:lines.index(stop) + 1] if stop in lines else lines
+    fpath = ex.UNKNOWN_FPATH if ex.fpath is None else ex.fpath
+    req = ('repr_failure_head', ex.exc_info[0].__name__, str(ex.node), str(fpath), prefix, ex.lineno, [part_data(p) for p in ex._parts],
+           skipped, logged, failed, tb, bool(ex.config.getvalue('offset_linenos', None)), bool(ex.config.getvalue('partnos')))
+    return req, head
